@@ -310,7 +310,8 @@ def read_model_initial_conditions(
             layeri = profile.loc[ii].Layer
             InitCond.th[ii] = hydf.th_s.loc[layeri]
 
-    InitCond.thini = InitCond.th
+    # keep an independent copy: th is updated in place during the simulation
+    InitCond.thini = np.array(InitCond.th, dtype=float)
 
     ParamStruct.Soil.profile = profile
     ParamStruct.Soil.Hydrology = hydf
